@@ -196,6 +196,11 @@ struct Ctx<'a> {
     ptr_base: BTreeMap<String, String>,
     /// element pointer alias -> (base text, index text)
     ptr_elem: BTreeMap<String, (String, String)>,
+    /// E5b: pointer induction variables: cursor alias -> base expression text
+    ptr_cursor: BTreeMap<String, String>,
+    /// E5b: end pointers: alias -> base
+    ptr_end: BTreeMap<String, String>,
+    tmp_n: usize,
     /// occurrences counters for anchors
     anchor_occ: BTreeMap<String, usize>,
     self_iter_types: Vec<String>,
@@ -296,31 +301,117 @@ impl<'a> Ctx<'a> {
     }
     /// E7: `&x` sub-patterns (Copy items) -> fresh binder `x__r`; returns the `let x = *x__r;` text
     /// that must be placed at the start of the scope the pattern binds in.
+    /// E7: `&x` / `&(a, b, _)` sub-patterns (Copy items) -> fresh binder; returns the `let` text that
+    /// must be placed at the start of the scope the pattern binds in.
     fn ref_pats(&mut self, pat: &syn::Pat, in_closure_spec: bool) -> String {
-        struct P<'s> { found: Vec<(Span, String)>, bad: bool, _m: std::marker::PhantomData<&'s ()> }
-        impl<'ast, 's> Visit<'ast> for P<'s> {
+        struct P { found: Vec<(Span, String, String)>, bad: bool, n: usize }
+        impl<'ast> Visit<'ast> for P {
             fn visit_pat_reference(&mut self, r: &'ast syn::PatReference) {
-                if let syn::Pat::Ident(pi) = &*r.pat {
-                    if r.mutability.is_none() && pi.by_ref.is_none() && pi.subpat.is_none() {
-                        self.found.push((r.span(), pi.ident.to_string()));
-                        return;
+                if r.mutability.is_none() {
+                    if let syn::Pat::Ident(pi) = &*r.pat {
+                        if pi.by_ref.is_none() && pi.subpat.is_none() {
+                            let id = pi.ident.to_string();
+                            self.found.push((r.span(), format!("{id}__r"), format!("let {id} = *{id}__r; ")));
+                            return;
+                        }
+                    }
+                    if let syn::Pat::Tuple(t) = &*r.pat {
+                        self.n += 1;
+                        let name = format!("t{}__r", self.n);
+                        let mut lets = String::new();
+                        let mut ok = true;
+                        for (k, el) in t.elems.iter().enumerate() {
+                            match el {
+                                syn::Pat::Ident(pi) if pi.by_ref.is_none() && pi.subpat.is_none() => lets.push_str(&format!("let {} = {name}.{k}; ", pi.ident)),
+                                syn::Pat::Wild(_) => {}
+                                _ => ok = false,
+                            }
+                        }
+                        if ok { self.found.push((r.span(), name, lets)); return; }
                     }
                 }
                 self.bad = true;
             }
         }
-        let mut p = P { found: vec![], bad: false, _m: std::marker::PhantomData };
+        let mut p = P { found: vec![], bad: false, n: self.tmp_n };
         p.visit_pat(pat);
+        self.tmp_n = p.n;
         if p.bad { self.errors.push("E7: unsupported reference pattern".into()); }
         let mut lets = String::new();
-        for (sp, id) in p.found {
+        for (sp, name, l) in p.found {
             if !in_closure_spec {
                 let (a, b) = self.src.range(sp);
-                self.add(a, b, format!("{id}__r"), "E7 reference pattern");
+                self.add(a, b, name, "E7 reference pattern");
             }
-            lets.push_str(&format!("let {id} = *{id}__r; "));
+            lets.push_str(&l);
         }
         lets
+    }
+    /// E7/E9: closure parameters that are patterns; `names` are the parameter names given in the @closure header
+    fn closure_param_lets(&mut self, inputs: &syn::punctuated::Punctuated<syn::Pat, syn::Token![,]>, names: &[String]) -> String {
+        let mut lets = String::new();
+        for (k, inp) in inputs.iter().enumerate() {
+            let inp = match inp { syn::Pat::Type(pt) => &*pt.pat, p => p };
+            let Some(name) = names.get(k) else { self.errors.push("E9: @closure header has fewer parameters than the closure".into()); continue; };
+            match inp {
+                syn::Pat::Ident(_) | syn::Pat::Wild(_) => {}
+                syn::Pat::Reference(r) => match &*r.pat {
+                    syn::Pat::Ident(pi) => lets.push_str(&format!("let {} = *{name}; ", pi.ident)),
+                    syn::Pat::Tuple(t) => {
+                        for (j, el) in t.elems.iter().enumerate() {
+                            match el {
+                                syn::Pat::Ident(pi) => lets.push_str(&format!("let {} = {name}.{j}; ", pi.ident)),
+                                syn::Pat::Wild(_) => {}
+                                _ => self.errors.push("E7: unsupported closure parameter pattern".into()),
+                            }
+                        }
+                    }
+                    _ => self.errors.push("E7: unsupported closure parameter pattern".into()),
+                },
+                syn::Pat::Tuple(t) => {
+                    for (j, el) in t.elems.iter().enumerate() {
+                        match el {
+                            syn::Pat::Ident(pi) => lets.push_str(&format!("let {} = {name}.{j}; ", pi.ident)),
+                            syn::Pat::Reference(r) => match &*r.pat {
+                                syn::Pat::Ident(pi) => lets.push_str(&format!("let {} = *{name}.{j}; ", pi.ident)),
+                                _ => self.errors.push("E7: unsupported closure parameter pattern".into()),
+                            },
+                            syn::Pat::Wild(_) => {}
+                            _ => self.errors.push("E7: unsupported closure parameter pattern".into()),
+                        }
+                    }
+                }
+                _ => self.errors.push("E7: unsupported closure parameter pattern".into()),
+            }
+        }
+        lets
+    }
+    /// E5b: `P` or `P.add(k)` with P a pointer cursor -> (P, base, k-text or "")
+    fn cursor_of(&self, e: &syn::Expr) -> Option<(String, String, String)> {
+        match e {
+            syn::Expr::Path(p) => {
+                let id = p.path.get_ident()?.to_string();
+                let base = self.ptr_cursor.get(&id)?;
+                Some((id, base.clone(), String::new()))
+            }
+            syn::Expr::MethodCall(mc) if mc.method == "add" && mc.args.len() == 1 => {
+                if let syn::Expr::Path(p) = &*mc.receiver {
+                    let id = p.path.get_ident()?.to_string();
+                    let base = self.ptr_cursor.get(&id)?;
+                    return Some((id, base.clone(), self.src.slice(mc.args[0].span()).to_string()));
+                }
+                None
+            }
+            syn::Expr::Paren(p) => self.cursor_of(&p.expr),
+            _ => None,
+        }
+    }
+    fn ptr_name(&self, e: &syn::Expr) -> Option<String> {
+        if let syn::Expr::Path(p) = e {
+            let id = p.path.get_ident()?.to_string();
+            if self.ptr_cursor.contains_key(&id) || self.ptr_end.contains_key(&id) { return Some(id); }
+        }
+        None
     }
     fn is_ptr_add(&self, e: &syn::Expr) -> Option<(String, String)> {
         // P.add(e) with P a recorded pointer alias  (possibly inside unsafe { } or parens)
@@ -409,8 +500,33 @@ impl<'a, 'ast> Visit<'ast> for Ctx<'a> {
                     syn::Pat::Type(pt) => match &*pt.pat { syn::Pat::Ident(pi) => Some(pi.ident.to_string()), _ => None },
                     _ => None,
                 };
-                if let (Some(id), Some(init)) = (ident, &l.init) {
+                let is_mut = match &l.pat { syn::Pat::Ident(pi) => pi.mutability.is_some(), _ => false };
+                if let (Some(id), Some(init)) = (ident.clone(), &l.init) {
                     if let syn::Expr::MethodCall(mc) = &*init.expr {
+                        // E5b: `let mut P = X.as_ptr();` is a pointer induction variable -> index cursor P__i
+                        if is_mut && (mc.method == "as_ptr" || mc.method == "as_mut_ptr") && mc.args.is_empty() {
+                            let base = self.src.slice(mc.receiver.span()).to_string();
+                            self.ptr_cursor.insert(id.clone(), base.clone());
+                            let (a, b) = self.src.range(l.span());
+                            self.add(a, b, format!("let mut {id}__i: usize = 0; /* E5b: {id} == &{base}[{id}__i] */"), "E5b pointer cursor");
+                            self.site("e5_binding");
+                            return;
+                        }
+                        // E5b: `let E = X.as_ptr().add(e);` is an end pointer -> index bound E__i (e <= len is the UB condition of add)
+                        if mc.method == "add" && mc.args.len() == 1 {
+                            if let syn::Expr::MethodCall(inner) = &*mc.receiver {
+                                if (inner.method == "as_ptr" || inner.method == "as_mut_ptr") && inner.args.is_empty() {
+                                    let base = self.src.slice(inner.receiver.span()).to_string();
+                                    let e = self.src.slice(mc.args[0].span()).to_string();
+                                    self.ptr_end.insert(id.clone(), base.clone());
+                                    let (a, b) = self.src.range(l.span());
+                                    self.add(a, b, format!("let {id}__i: usize = {e}; assert({id}__i <= {base}.len()); /* E5b: {id} == &{base}[{id}__i] */"), "E5b end pointer");
+                                    self.site("e5_binding");
+                                    self.site("e5_access");
+                                    return;
+                                }
+                            }
+                        }
                         if (mc.method == "as_ptr" || mc.method == "as_mut_ptr") && mc.args.is_empty() {
                             let base = self.src.slice(mc.receiver.span()).to_string();
                             // subst inside base is not supported
@@ -440,6 +556,36 @@ impl<'a, 'ast> Visit<'ast> for Ctx<'a> {
         match e {
             syn::Expr::Macro(em) => {
                 self.macro_edit(&em.mac, em.span(), false);
+                return;
+            }
+            syn::Expr::Unary(u) if matches!(u.op, syn::UnOp::Deref(_)) && !self.item.no_ptr_rule && self.cursor_of(&u.expr).is_some() => {
+                let (id, base, off) = self.cursor_of(&u.expr).unwrap();
+                let (a, b) = self.src.range(u.span());
+                let idx = if off.is_empty() { format!("{id}__i") } else { format!("{id}__i + ({off})") };
+                self.add(a, b, format!("{base}[{idx}]"), "E5b cursor deref -> index");
+                self.site("e5_access");
+                return;
+            }
+            syn::Expr::Assign(asg) if !self.item.no_ptr_rule && self.cursor_of(&asg.left).map(|c| c.2.is_empty()).unwrap_or(false) => {
+                // P = P.add(k)
+                let (id, base, _) = self.cursor_of(&asg.left).unwrap();
+                if let Some((id2, _, off)) = self.cursor_of(&asg.right) {
+                    if id2 == id && !off.is_empty() {
+                        let (a, b) = self.src.range(asg.span());
+                        self.add(a, b, format!("{{ {id}__i = {id}__i + ({off}); assert({id}__i <= {base}.len()); }}"), "E5b cursor advance");
+                        self.site("e5_access");
+                        return;
+                    }
+                }
+                self.errors.push(format!("E5b: unsupported assignment to pointer cursor {id}"));
+                return;
+            }
+            syn::Expr::Binary(bin) if !self.item.no_ptr_rule && matches!(bin.op, syn::BinOp::Lt(_) | syn::BinOp::Le(_) | syn::BinOp::Gt(_) | syn::BinOp::Ge(_) | syn::BinOp::Eq(_) | syn::BinOp::Ne(_)) && self.ptr_name(&bin.left).is_some() && self.ptr_name(&bin.right).is_some() => {
+                for side in [&bin.left, &bin.right] {
+                    let id = self.ptr_name(side).unwrap();
+                    let (a, b) = self.src.range(side.span());
+                    self.add(a, b, format!("{id}__i"), "E5b pointer comparison -> index comparison");
+                }
                 return;
             }
             syn::Expr::Unary(u) if matches!(u.op, syn::UnOp::Deref(_)) && !self.item.no_ptr_rule => {
@@ -477,7 +623,7 @@ impl<'a, 'ast> Visit<'ast> for Ctx<'a> {
                 }
                 if (m == "add" || m == "as_ptr" || m == "as_mut_ptr" || m == "offset" || m == "sub") && !self.item.no_ptr_rule {
                     // a pointer operation that was not consumed by an E5 pattern
-                    if m != "add" && m != "sub" || self.is_ptr_add(e).is_some() {
+                    if (m != "add" && m != "sub" || self.is_ptr_add(e).is_some()) && self.cursor_of(e).is_none() {
                         self.errors.push(format!("E5: unsupported pointer use `{}` at line {}", norm(self.src.slice(e.span())), self.src.line_of(self.src.range(e.span()).0)));
                     }
                 }
@@ -511,9 +657,9 @@ impl<'a, 'ast> Visit<'ast> for Ctx<'a> {
             let (fs, _) = self.src.range(f.for_token.span());
             let (bo, _) = self.src.range(f.body.brace_token.span.open());
             let (bc, _) = self.src.range(f.body.brace_token.span.close());
-            self.add(fs, bo + 1, format!("loop /*@LOOP{ord}@*/ {{ match self.next() {{ Some({pat}) => {{ /*@ANCHORLS{ord}@*/"), "E8 self-iteration");
-            self.add(bc, bc + 1, format!("/*@ANCHORLE{ord}@*/ }} None => {{ break; }} }} }}"), "E8 self-iteration");
-            let anchors: Vec<Anchor> = self.item.anchors.iter().filter(|a| a.loop_ == ord && (a.where_ == "loop_start" || a.where_ == "loop_end")).cloned().collect();
+            self.add(fs, bo + 1, format!("loop /*@LOOP{ord}@*/ {{ /*@ANCHORBC{ord}@*/ match self.next() {{ Some({pat}) => {{ /*@ANCHORLS{ord}@*/"), "E8 self-iteration");
+            self.add(bc, bc + 1, format!("/*@ANCHORLE{ord}@*/ }} None => {{ /*@ANCHORBR{ord}@*/ break; }} }} }}"), "E8 self-iteration");
+            let anchors: Vec<Anchor> = self.item.anchors.iter().filter(|a| a.loop_ == ord && (a.where_ == "loop_start" || a.where_ == "loop_end" || a.where_ == "before_call" || a.where_ == "at_break")).cloned().collect();
             for an in anchors { self.anchors_found.push(an.id.clone()); }
             self.visit_block(&f.body);
             return;
@@ -571,8 +717,17 @@ impl<'a, 'ast> Visit<'ast> for Ctx<'a> {
                 self.errors.push("E9: closure already has a return type".into());
             }
             self.add(o1, o2, spec.params.clone(), "E9 closure parameter types");
-            let mut lets = String::new();
-            for inp in &c.inputs { lets.push_str(&self.ref_pats(inp, true)); }
+            // parameter names from the @closure header: |a: T, b: U|
+            let inner = spec.params.trim().trim_matches('|').to_string();
+            let mut names = vec![];
+            let mut depth = 0i32; let mut cur = String::new();
+            for ch in inner.chars() {
+                match ch { '(' | '[' | '<' => depth += 1, ')' | ']' | '>' => depth -= 1, _ => {} }
+                if ch == ',' && depth == 0 { names.push(cur.clone()); cur.clear(); } else { cur.push(ch); }
+            }
+            if !cur.trim().is_empty() { names.push(cur); }
+            let names: Vec<String> = names.iter().map(|n| n.split(':').next().unwrap_or("").trim().trim_start_matches("mut ").to_string()).collect();
+            let lets = self.closure_param_lets(&c.inputs, &names);
             if let syn::Expr::Block(eb) = &*c.body {
                 self.add(bs, bs, format!(" -> {} /*@CLOSURE{ord}@*/ ", spec.ret), "E9 closure contract");
                 if !lets.is_empty() {
@@ -704,7 +859,7 @@ fn extract_fn(file: &syn::File, src: &Src, it: &Item) -> ItemOut {
     out.orig_start_line = src.line_of(ws);
     out.orig_end_line = src.line_of(we);
 
-    let mut cx = Ctx { src, item: it, edits: vec![], seq: 0, loops: vec![], closures: 0, sites: BTreeMap::new(), errors: vec![], anchors_found: vec![], ptr_base: BTreeMap::new(), ptr_elem: BTreeMap::new(), anchor_occ: BTreeMap::new(), self_iter_types: vec![] };
+    let mut cx = Ctx { src, item: it, edits: vec![], seq: 0, loops: vec![], closures: 0, sites: BTreeMap::new(), errors: vec![], anchors_found: vec![], ptr_base: BTreeMap::new(), ptr_elem: BTreeMap::new(), ptr_cursor: BTreeMap::new(), ptr_end: BTreeMap::new(), tmp_n: 0, anchor_occ: BTreeMap::new(), self_iter_types: vec![] };
 
     // ---- signature, rebuilt from source slices (E0, E2, E10, E11) ----
     let mut sigtxt = String::new();
@@ -718,7 +873,7 @@ fn extract_fn(file: &syn::File, src: &Src, it: &Item) -> ItemOut {
     // inputs: visit for subst
     let (ps, pe) = src.range(sig.paren_token.span.join());
     {
-        let mut sub = Ctx { src, item: it, edits: vec![], seq: 0, loops: vec![], closures: 0, sites: BTreeMap::new(), errors: vec![], anchors_found: vec![], ptr_base: BTreeMap::new(), ptr_elem: BTreeMap::new(), anchor_occ: BTreeMap::new(), self_iter_types: vec![] };
+        let mut sub = Ctx { src, item: it, edits: vec![], seq: 0, loops: vec![], closures: 0, sites: BTreeMap::new(), errors: vec![], anchors_found: vec![], ptr_base: BTreeMap::new(), ptr_elem: BTreeMap::new(), ptr_cursor: BTreeMap::new(), ptr_end: BTreeMap::new(), tmp_n: 0, anchor_occ: BTreeMap::new(), self_iter_types: vec![] };
         for inp in &sig.inputs { sub.visit_fn_arg(inp); }
         let mut errs = vec![];
         sigtxt.push_str(&norm(&apply_edits(src, ps, pe, sub.edits.clone(), &mut errs)));
@@ -727,7 +882,7 @@ fn extract_fn(file: &syn::File, src: &Src, it: &Item) -> ItemOut {
     }
     if let syn::ReturnType::Type(_, ty) = &sig.output {
         let (ts, te) = src.range(ty.span());
-        let mut sub = Ctx { src, item: it, edits: vec![], seq: 0, loops: vec![], closures: 0, sites: BTreeMap::new(), errors: vec![], anchors_found: vec![], ptr_base: BTreeMap::new(), ptr_elem: BTreeMap::new(), anchor_occ: BTreeMap::new(), self_iter_types: vec![] };
+        let mut sub = Ctx { src, item: it, edits: vec![], seq: 0, loops: vec![], closures: 0, sites: BTreeMap::new(), errors: vec![], anchors_found: vec![], ptr_base: BTreeMap::new(), ptr_elem: BTreeMap::new(), ptr_cursor: BTreeMap::new(), ptr_end: BTreeMap::new(), tmp_n: 0, anchor_occ: BTreeMap::new(), self_iter_types: vec![] };
         sub.visit_type(ty);
         let mut errs = vec![];
         let mut t = norm(&apply_edits(src, ts, te, sub.edits.clone(), &mut errs));
@@ -805,7 +960,7 @@ fn extract_struct(file: &syn::File, src: &Src, it: &Item) -> ItemOut {
                 out.orig_text = src.text[ws..we].to_string();
                 out.orig_start_line = src.line_of(ws);
                 out.orig_end_line = src.line_of(we);
-                let mut cx = Ctx { src, item: it, edits: vec![], seq: 0, loops: vec![], closures: 0, sites: BTreeMap::new(), errors: vec![], anchors_found: vec![], ptr_base: BTreeMap::new(), ptr_elem: BTreeMap::new(), anchor_occ: BTreeMap::new(), self_iter_types: vec![] };
+                let mut cx = Ctx { src, item: it, edits: vec![], seq: 0, loops: vec![], closures: 0, sites: BTreeMap::new(), errors: vec![], anchors_found: vec![], ptr_base: BTreeMap::new(), ptr_elem: BTreeMap::new(), ptr_cursor: BTreeMap::new(), ptr_end: BTreeMap::new(), tmp_n: 0, anchor_occ: BTreeMap::new(), self_iter_types: vec![] };
                 cx.visit_fields(&s.fields);
                 let (fs, fe) = src.range(s.fields.span());
                 let mut errs = vec![];
